@@ -2,6 +2,14 @@
 mod channels;
 mod upload_pack;
 
+/// Verification hooks (cargo feature `verif-hooks`, off by default): re-exports of
+/// private worker items for external harnesses. Adds no logic.
+#[cfg(feature = "verif-hooks")]
+pub mod verif {
+    pub use super::fetch::verif_cache_cobs as cache_cobs;
+    pub use super::upload_pack::pktline::{git_request, GitRequest};
+}
+
 pub mod fetch;
 pub mod garbage;
 
